@@ -65,6 +65,18 @@ CHECKS = {
    note=NOTE_COMMON+" np.round(.,9) identity; Euclidean norm of vectors parallel to the known direction computed exactly (parallelism checked per call); dipoles in the outermost node plane excluded; dipole span bounded (quick: <= 2 nodes axis-aligned, 1 cell oblique).",
    technique="symbolic execution with forking clipping comparisons (path = crossing class) + NRA validity queries; axiomatised cos/sin/angle for the conversions",
    ref="DESIGN.md §6 C10"),
+ 'C13': dict(
+   text="Survey objects are built (shadow code, xarray Datasets over object arrays) with observed data, noise floor, relative error, "
+        "explicit std and the random draws of random_noise as solver variables, in scalar / per-source / per-receiver / "
+        "per-frequency / full-array forms. z3 decides: std_i^2 = nf_i^2 + (re_i|d_i|)^2 >= 0 with explicit std taking priority; "
+        "after add_noise (all noise types, amplitude and offset cuts; every datum's cut is a fork), the std getter, copy, "
+        "to_dict/from_dict and select every entry of noise floor / relative error / std equals its value before and arrays "
+        "handed out earlier are untouched; copies share nothing; select returns exactly the chosen datum with its settings; "
+        "explicit re-assignment (array -> scalar -> None -> array) is honoured; Simulation.misfit = 1/2 sum_finite |r|^2/std^2 "
+        "(NaN datum skipped) and uses the new settings after re-assignment + clean.",
+   note=NOTE_COMMON+" Survey shape 2x2x1 (thorough also 1x1x1, 2x1x2); |z| and sqrt as fresh variables with s^2=x; xarray's sum(skipna) modelled for the NaN datum; misfit/clean run on a duck-typed carrier of the survey.",
+   technique="symbolic execution of Survey/misfit code on xarray-over-solver-terms with forking data cuts + SMT validity of equalities (LIN/NRA)",
+   ref="DESIGN.md §6 C13"),
  'C05': dict(
    text="Bounded symbolic execution with the grid shape as z3 integers: MGParameters._max_level, _current_sc_dir, _current_lr_dir, "
         "smoothing dispatch, multigrid recursion and _terminate run with numerics stubbed; the explorer forks on the code's "
